@@ -232,7 +232,7 @@ class KernelEval(Evaluator):
         if d in ("numpy.rint", "numpy.round", "numpy.around"):
             return lambda v: round(v)
         if d in ("numpy.zeros", "numpy.empty"):
-            return lambda shape=None, *a, **k: ("alloc", tuple(shape) if isinstance(shape, (tuple, list)) else (shape,))
+            return lambda shape=None, dtype=None, *a, **k: ("alloc", tuple(shape) if isinstance(shape, (tuple, list)) else (shape,), dtype)
         if d in ("numpy.float64", "numpy.int64", "numpy.float32", "numpy.int32"):
             return ("dtype", d)
         if d in ("numpy.isfinite",):
@@ -248,6 +248,10 @@ class KernelEval(Evaluator):
     def attr(self, node, base):
         if isinstance(base, (Vec, Vals, Arr)) and node.attr == "shape":
             return base.shape
+        if isinstance(base, (Vec, Vals)) and node.attr == "dtype":
+            return ("dtype-of-input", "values" if isinstance(base, Vals) else getattr(base, "name", "coordinates"))
+        if isinstance(base, Arr) and node.attr == "dtype":
+            return getattr(base, "dtype", None) or ("dtype", "numpy.float64")
         return super().attr(node, base)
 
     def binop(self, node, op, a, b):
@@ -259,7 +263,9 @@ class KernelEval(Evaluator):
 
     def assign(self, t, v):
         if isinstance(t, ast.Name) and isinstance(v, tuple) and v and v[0] == "alloc":
+            dt = v[2] if len(v) > 2 else None
             v = Arr(t.id, v[1], self.log, self.ctx)
+            v.dtype = dt
         return super().assign(t, v)
 
     def exec_stmt(self, st):
@@ -340,6 +346,19 @@ def r2_kernel_index_logic(run, tree):
             run.ob(KERNEL + "::array-shapes", ok, fi.where(), "returned accumulators have shapes %s and %s (required (layers, ny, nx) and (ny, nx))" % (rv.shape, rc.shape),
                    "a non-square resolution indexes out of bounds or transposes the histogram")
         base_c, base_v = getattr(rc, "base", rc), getattr(rv, "base", rv)
+        if (nthreads, big) == variants[0]:
+            # sums are accumulated in double precision whatever the layers hold: an accumulator typed after its input wraps (int8 flags,
+            # int32 ids) or loses precision (float32) - the default layer (ones_like(x)) counts points in the dtype of x
+            dts = {nm: getattr(getattr(a_, "base", a_), "dtype", None) for nm, a_ in (("values", rv), ("counts", rc))}
+            bad = {nm: d_ for nm, d_ in dts.items() if isinstance(d_, tuple) and d_ and d_[0] == "dtype-of-input"}
+            unknown = {nm: d_ for nm, d_ in dts.items() if d_ is not None and not (isinstance(d_, tuple) and d_ and d_[0] in ("dtype", "dtype-of-input"))
+                       and d_ not in (float, int)}
+            if unknown:
+                run.unresolved(KERNEL + "::accumulator-dtype", fi.where(), "dtype of the accumulators not understood: %r" % (unknown,))
+            else:
+                ok_dt = not bad and dts["values"] in (None, float, ("dtype", "numpy.float64"))
+                run.ob(KERNEL + "::accumulator-dtype", ok_dt, fi.where(), "accumulators allocated as %s" % {k_: (v_[1] if isinstance(v_, tuple) else v_) for k_, v_ in dts.items()},
+                       "layers (or x, for the default counts layer) stored as int8/int16/float32: per-bin sums wrap around or saturate")
 
         def unflat(view, idx):
             """an index recorded on the flat accumulator -> the index in the returned (reshaped) array"""
